@@ -112,7 +112,7 @@ func (r *replayRunner) run(harness, replayPath string) string {
 		script = `exec "$0" -test.run '^TestVerifReplay$' -test.count=1 -test.timeout 300s`
 	}
 	cmd := exec.Command("bash", "-c", script, r.bin)
-	cmd.Env = append(os.Environ(), "VERIF_REPLAY="+replayPath, "VERIF_HARNESS="+harness)
+	cmd.Env = append(os.Environ(), "VERIF_REPLAY="+replayPath, "VERIF_HARNESS="+harness, "VERIF_EXPECT="+replayExpect(replayPath))
 	cmd.Dir = r.lg.g.PkgDir
 	out, _ := cmd.CombinedOutput()
 	return string(out)
@@ -229,3 +229,20 @@ func cmdReplay(path string) int {
 }
 
 
+
+// replayExpect reads the "expect" class of a replay file (the allocation measurement is only consulted when an
+// allocation obligation is being replayed; it is too noisy to be a pass criterion for ordinary witnesses)
+func replayExpect(path string) string {
+	b, err := os.ReadFile(path)
+	if err != nil {
+		return ""
+	}
+	var rf ReplayFile
+	if json.Unmarshal(b, &rf) != nil {
+		return ""
+	}
+	if rf.Expect == "alloc" {
+		return "alloc"
+	}
+	return ""
+}
